@@ -113,7 +113,28 @@ func (x *Exec) inline(st *State, fn *ssa.Function, args []Value, bindings []Valu
 	sub.findLoops()
 	sub.numberCalls()
 	if len(sub.loops) > 0 {
-		panic("unsupported:helper " + fn.Name() + " has a loop and no contract")
+		// A helper with loops has no contract of its own, but the caller's contract may carry loop specifications
+		// that its own body does not use (the loops were moved into the helper): they are applied to the helper's
+		// loops, in order, after the caller's own. They are checked like any invariant (entry, preservation, variant).
+		own := len(x.loops)
+		spare := 0
+		if x.fc != nil {
+			for n := range x.fc.Loops {
+				if n > own {
+					spare++
+				}
+			}
+		}
+		if x.fc == nil || spare < len(sub.loops) || x.inlineDepth > 0 {
+			panic("unsupported:helper " + fn.Name() + " has a loop and no contract")
+		}
+		sub.fc = &FuncContract{Name: x.fc.Name, Loops: map[int]*LoopSpec{}}
+		for h, li := range sub.loops {
+			li.spec = x.fc.Loops[own+li.ordinal]
+			li.ordinal = own + li.ordinal
+			sub.loops[h] = li
+		}
+		sub.names, sub.ghosts, sub.old = x.names, x.ghosts, x.old
 	}
 	saved := st.env
 	st.env = map[ssa.Value]Value{}
